@@ -97,7 +97,7 @@ def _cache_key(job, tier):
     for part in (job.c_text, job.entry, str(job.enforce), ','.join(job.replace), str(job.loop_contracts), str(job.unwind),
                  ','.join(job.defines), ','.join(job.cbmc_extra), ','.join(job.drop_flags), str(job.object_bits),
                  str(job.unsigned_overflow_check), str(job.no_unwinding_assertions), tier,
-                 ' '.join(cbmc.DEFAULT_CHECKS), 'v3'):
+                 str(job.min_cover), str(job.min_obligations), ' '.join(cbmc.DEFAULT_CHECKS), 'v4'):
         h.update(part.encode())
         h.update(b'\0')
     try:
